@@ -94,9 +94,10 @@ SPEC = {
         "tables_as_modelled", "all_positions_descended", "implicit_names_agree",
         "recurse_no_panic", "recurse_terminates", "measure_bounded_and_increasing", "close_is_reachability",
         "closure_order_independent", "closure_keeps_keys", "required_order_independent",
-        "requiredP_order_independent", "required_monotone", "args_align_partial", "args_misaligned_with_defaults",
+        "requiredP_order_independent", "required_monotone", "args_align", "args_unchanged_without_implicit", "args_aligned_with_defaults",
         "threaded_exactly_partial", "calculateLocal_wf", "closeProgram_ok", "threaded_exactly_program_partial",
-        "default_arguments_not_analysed", "global_initialisers_not_analysed"]],
+        "mentions_calculateLocal", "threaded_exactly",
+        "default_arguments_analysed", "global_initialisers_analysed"]],
     "harness": "c02",
     "nontrivial": nontrivial,
     "finding_key": finding_key,
@@ -135,8 +136,9 @@ SPEC = {
     ],
     "assumptions": [
         "names: every global/function/parameter keeps a distinct Metal name (C15); the model works on indices",
-        "the _partial theorems exclude default-argument expressions and global initialisers, which the real analysis "
-        "does not visit (4 listed findings reproduce the consequences on the real code)",
+        "'needs' counts default-argument expressions and global initialisers (reading agreed after fixes 2c8592f/1d760f5); "
+        "threaded_exactly assumes every mention sits at a place gather_usage_* visits (AllSeen; all_positions_descended "
+        "discharges it for the generator's 32 positions) and the type checker's guarantee that omitted arguments have defaults",
         "expression/statement semantics of the emitted Metal (the gen_sem half of C02, shared with C01) is outside this model",
     ],
 }
